@@ -1,11 +1,11 @@
 SPECIFICATION MCSpec
 CONSTANTS
   LiveCounts = {0, 1, 2, 3, 4, 5, 6}
-  ShortCounts = {0, 1, 2}
+  ShortCounts = {0, 2}
   SelfModes = {"none", "near", "far"}
   ShortNear = {TRUE, FALSE}
   Samples = {0, 1, 3, 8}
-  Orders = {"flat-asc", "flat-desc", "busy"}
+  Orders = {"flat-asc", "busy"}
   ShardCounts = {0, 1, 2, 3, 4, 5, 6, 7}
   Thrs = {0, 1, 2, 3, 4, 5}
   Targets = {0, 1, 2, 3, 4, 5}
